@@ -206,7 +206,9 @@ class SqlalchemyRender:
             }
             arg = self.to_expression(t.args[0])
 
-            method = opmap[t.op.upper()]
+            method = opmap.get(t.op.upper())
+            if method is None:
+                raise NotImplementedError(f'Unknown unary operation: {t.op}')
             col = getattr(arg, method)()
             if t.alias:
                 alias = self.get_alias(t.alias)
@@ -263,7 +265,8 @@ class SqlalchemyRender:
                 col = col.label(alias)
         elif isinstance(t, ast.Parameter):
             col = sa.column(t.value, is_literal=True)
-            if t.alias: raise Exception()
+            if t.alias:
+                raise NotImplementedError('Parameter with alias')
         elif isinstance(t, ast.Tuple):
             col = [
                 self.to_expression(i)
@@ -332,6 +335,8 @@ class SqlalchemyRender:
             typename = 'BIGINT'
         if re.match('^FLOAT[\d]*$', typename):
             typename = 'FLOAT'
+        if typename not in self.types_map:
+            raise NotImplementedError(f'Unknown type: {typename}')
         type = self.types_map[typename]
         return type
 
@@ -396,7 +401,7 @@ class SqlalchemyRender:
 
         else:
             # TODO tests are failing
-            raise NotImplementedError(f'Table {node.__name__}')
+            raise NotImplementedError(f'Table {node.__class__.__name__}')
 
         return table
 
@@ -544,6 +549,9 @@ class SqlalchemyRender:
 
     def prepare_create_table(self, ast_query):
         columns = []
+
+        if ast_query.columns is None:
+            raise NotImplementedError('Create table without list of columns')
 
         for col in ast_query.columns:
             default = None
